@@ -34,7 +34,7 @@ def tolerated(case, i, impl, model):
 
 
 def gen_cases(rng, tier):
-    n_user = 40 if tier == "thorough" else 5
+    n_user = 40 if tier == "thorough" else 10
     n_pre = 8 if tier == "thorough" else 2
     per = 80 if tier == "thorough" else 50
     cases = []
